@@ -306,7 +306,7 @@ def pcm_orders(c):
     tgt = num_map(c, 'target', fields=('quantity',), gen=lambda r: float(r.choice([-30, 0, 10, 100])), pgen=lambda r: r.random() < 0.6)
     cur = num_map(c, 'current', fields=REPORT, gen=lambda r: float(r.choice([-50, 10, 100, 250])), pgen=lambda r: r.random() < 0.5)
     dt = c.time('dt')
-    pcm = object.__new__(PCM)
+    pcm = PCM(None, 'pid', None, None, None)          # (the real constructor: it only stores its arguments)
     if c.mode == 'sym':
         register_loops()
     try:
